@@ -61,6 +61,82 @@ AndVals(vs) == IF \E i \in 1..Len(vs) : vs[i].t = "bool" /\ ~vs[i].b THEN VBool(
 XorVals(vs) == IF \E i \in 1..Len(vs) : vs[i].t # "bool" THEN VUndef
                ELSE VBool(Cardinality({i \in 1..Len(vs) : vs[i].b}) % 2 = 1)
 
+\* ------------------------------------------------- symbolic differentiation
+\* D(t, x): the derivative of a recipe with respect to the symbol named x, as a recipe
+\* (textbook rules: linearity, product, quotient, general power, chain rule).  Kinds without
+\* a rule give the term TUnk, whose value is undefined (the comparison is then not decisive).
+TUnk == T("unknown", <<>>, "", 0, 0)
+RECURSIVE Occurs(_, _), OccursSeq(_, _, _)
+OccursSeq(a, x, i) == IF i > Len(a) THEN FALSE ELSE Occurs(a[i], x) \/ OccursSeq(a, x, i + 1)
+Occurs(t, x) == IF t.k = "Sym" THEN t.s = x ELSE IF t.k = "unknown" THEN TRUE ELSE OccursSeq(t.a, x, 1)
+TAdd2(a, b) == TOp("add", <<a, b>>)
+TMul2(a, b) == TOp("mul", <<a, b>>)
+TMul3(a, b, c) == TOp("mul", <<a, b, c>>)
+TSub2(a, b) == TOp("sub", <<a, b>>)
+TDiv2(a, b) == TOp("div", <<a, b>>)
+TNeg1(a) == TOp("neg", <<a>>)
+TPow2(a, b) == TOp("pow", <<a, b>>)
+TSq(a) == TPow2(a, TInt(2))
+TF(name, a) == TOp(name, <<a>>)
+RECURSIVE D(_, _), DProd(_, _, _)
+\* product rule: sum over i of a[1]..a[i]'..a[n]
+DProd(a, x, i) ==
+    IF i > Len(a) THEN TInt(0)
+    ELSE TAdd2(TOp("mul", [j \in 1..Len(a) |-> IF j = i THEN D(a[j], x) ELSE a[j]]), DProd(a, x, i + 1))
+D(t, x) ==
+    LET k == t.k
+        f == t.a[1]
+        g == t.a[2]
+        df == D(t.a[1], x)
+        dg == D(t.a[2], x)
+    IN
+    IF ~Occurs(t, x) THEN TInt(0)
+    ELSE CASE k = "Sym" -> TInt(1)
+      [] k \in {"add", "addv"} -> TOp("add", [i \in 1..Len(t.a) |-> D(t.a[i], x)])
+      [] k \in {"mul", "mulv"} -> DProd(t.a, x, 1)
+      [] k = "sub" -> TSub2(df, dg)
+      [] k = "neg" -> TNeg1(df)
+      [] k = "div" -> TDiv2(TSub2(TMul2(df, g), TMul2(f, dg)), TSq(g))
+      [] k = "pow" -> (IF ~Occurs(g, x) THEN TMul3(g, TPow2(f, TSub2(g, TInt(1))), df)
+                       ELSE IF ~Occurs(f, x) THEN TMul3(t, TF("log", f), dg)
+                       ELSE TMul2(t, TAdd2(TMul2(dg, TF("log", f)), TDiv2(TMul2(g, df), f))))
+      [] k = "sqrt" -> TDiv2(df, TMul2(TInt(2), t))
+      [] k = "cbrt" -> TMul3(TRat(1, 3), TPow2(f, TRat(-2, 3)), df)
+      [] k = "exp" -> TMul2(t, df)
+      [] k = "log" -> TDiv2(df, f)
+      [] k = "sin" -> TMul2(TF("cos", f), df)
+      [] k = "cos" -> TNeg1(TMul2(TF("sin", f), df))
+      [] k = "tan" -> TMul2(TAdd2(TInt(1), TSq(t)), df)
+      [] k = "cot" -> TNeg1(TMul2(TAdd2(TInt(1), TSq(t)), df))
+      [] k = "sec" -> TMul3(t, TF("tan", f), df)
+      [] k = "csc" -> TNeg1(TMul3(t, TF("cot", f), df))
+      [] k = "asin" -> TDiv2(df, TF("sqrt", TSub2(TInt(1), TSq(f))))
+      [] k = "acos" -> TNeg1(TDiv2(df, TF("sqrt", TSub2(TInt(1), TSq(f)))))
+      [] k = "atan" -> TDiv2(df, TAdd2(TInt(1), TSq(f)))
+      [] k = "acot" -> TNeg1(TDiv2(df, TAdd2(TInt(1), TSq(f))))
+      [] k = "asec" -> TDiv2(df, TMul2(TSq(f), TF("sqrt", TSub2(TInt(1), TPow2(f, TInt(-2))))))
+      [] k = "acsc" -> TNeg1(TDiv2(df, TMul2(TSq(f), TF("sqrt", TSub2(TInt(1), TPow2(f, TInt(-2)))))))
+      [] k = "sinh" -> TMul2(TF("cosh", f), df)
+      [] k = "cosh" -> TMul2(TF("sinh", f), df)
+      [] k = "tanh" -> TMul2(TSub2(TInt(1), TSq(t)), df)
+      [] k = "coth" -> TMul2(TSub2(TInt(1), TSq(t)), df)
+      [] k = "sech" -> TNeg1(TMul3(t, TF("tanh", f), df))
+      [] k = "csch" -> TNeg1(TMul3(t, TF("coth", f), df))
+      [] k = "asinh" -> TDiv2(df, TF("sqrt", TAdd2(TSq(f), TInt(1))))
+      \* principal branch: 1/(sqrt(f-1) sqrt(f+1)) off the cut (-oo, 1); on the cut the function has no derivative
+      [] k = "acosh" -> TMul2(TF("offcut_acosh", f), TDiv2(df, TMul2(TF("sqrt", TSub2(f, TInt(1))), TF("sqrt", TAdd2(f, TInt(1))))))
+      [] k = "atanh" -> TDiv2(df, TSub2(TInt(1), TSq(f)))
+      [] k = "acoth" -> TDiv2(df, TSub2(TInt(1), TSq(f)))
+      \* asech(f) = acosh(1/f)
+      [] k = "asech" -> LET u == TDiv2(TInt(1), f)
+                        IN TMul2(TF("offcut_acosh", u), TNeg1(TDiv2(df, TMul3(TSq(f), TF("sqrt", TSub2(u, TInt(1))), TF("sqrt", TAdd2(u, TInt(1)))))))
+      [] k = "acsch" -> TNeg1(TDiv2(df, TMul2(TSq(f), TF("sqrt", TAdd2(TInt(1), TPow2(f, TInt(-2)))))))
+      [] k = "erf" -> TMul3(TDiv2(TInt(2), TF("sqrt", TConst("pi"))), TF("exp", TNeg1(TSq(f))), df)
+      [] k = "erfc" -> TNeg1(TMul3(TDiv2(TInt(2), TF("sqrt", TConst("pi"))), TF("exp", TNeg1(TSq(f))), df))
+      [] k = "expand" -> df
+      [] k = "diff" -> (IF g.k = "Sym" THEN D(D(f, g.s), x) ELSE TUnk)
+      [] OTHER -> TUnk
+
 RECURSIVE Val(_, _), SumVals(_, _, _), ProdVals(_, _, _), ValSeq(_, _), PwVal(_, _, _)
 \* Piecewise: value of the first branch whose condition holds
 PwVal(branches, env, i) ==
@@ -120,6 +196,13 @@ Val(t, env) ==
                env2 == [s \in (DOMAIN env) \cup keys |-> IF s \in keys THEN valOf(s) ELSE env[s]]
            IN IF symbolic THEN Val(t.a[1], env2) ELSE VUndef
       [] k = "expand" -> A(1)
+      \* 1 off the branch cut (-oo, 1) of acosh, undefined on it (and where that cannot be decided)
+      [] k = "offcut_acosh" -> LET v == A(1)
+                               IN IF ~(IsNum(v) /\ Exact(v)) THEN VUndef
+                                  ELSE IF v.im = R0 /\ v.pi = R0 /\ v.ip = R0 /\ RLess(v.re, R1) THEN VUndef
+                                  ELSE IF v.im = R0 /\ v.ip = R0 /\ v.pi # R0 THEN VUndef
+                                  ELSE V1
+      [] k = "diff" -> (IF t.a[2].k = "Sym" THEN Val(D(t.a[1], t.a[2].s), env) ELSE VUndef)
       [] k = "UnevaluatedExpr" -> A(1)
       [] k = "unevaluated_expr" -> A(1)
       \* ---- functions of one argument (recipe op and dump class)
